@@ -5,11 +5,12 @@ Import ListNotations.
 Open Scope Z_scope.
 
 (* For every configuration, every dispatcher state, every carrier, every input and whatever the protocol decoders do:
-   a returned code was produced in this very call by a decoder that is enabled and (for a non-zero carrier) whose nominal
-   carrier lies within its frequency tolerance. *)
-Theorem C10_only_possible_decoders : forall (PS : Type) (pdecode : nat -> PS -> PS * outcome) cfg freq hm ps st s' st' c,
-  dispatch (TPS PS) (tdecode PS pdecode) cfg freq hm (ps, []) st = (s', st', RCode c) ->
-  exists p, possible cfg freq p = true /\ In (p, OCode c) (snd s').
+   a returned code was produced in this very call by a decoder - or is a code stored on a decoder (`for code in decoder`)
+   that equals the input - and that decoder is enabled and (for a non-zero carrier) its nominal carrier lies within its
+   frequency tolerance. *)
+Theorem C10_only_possible_decoders : forall (PS : Type) (pdecode : nat -> PS -> PS * outcome) saved cfg freq hm ps st s' st' c,
+  dispatch (TPS PS) (tdecode PS pdecode) saved cfg freq hm (ps, []) st = (s', st', RCode c) ->
+  exists p, possible cfg freq p = true /\ (In (p, OCode c) (snd s') \/ saved p = Some c).
 Proof. exact dispatch_possible. Qed.
 
 (* disabling takes effect immediately, also for a held key: a disabled decoder is not "possible" *)
